@@ -109,8 +109,19 @@ func C13(c *Ctx) {
 	}
 	var jobs []job
 	pickFlags := func() []string { return c13FlagCombos[rng.Intn(len(c13FlagCombos))] }
+	refRe := regexp.MustCompile(`\bR\d\b|\bE\d\b|\bAt\b`)
 	for _, b := range bases {
 		jobs = append(jobs, job{[]byte(b), pickFlags(), rng.Intn(2) == 0, rng.Intn(2) == 0, "valid"})
+		// semantic near-miss that still parses: one rule reference renamed to an undefined rule
+		if locs := refRe.FindAllStringIndex(b, -1); len(locs) > 1 {
+			l := locs[1+rng.Intn(len(locs)-1)]
+			nb := b[:l[0]] + "Undefined" + b[l[1]:]
+			fl := pickFlags()
+			if rng.Intn(2) == 0 {
+				fl = []string{"-optimize-grammar"}
+			}
+			jobs = append(jobs, job{[]byte(nb), fl, rng.Intn(2) == 0, rng.Intn(2) == 0, "undefined-ref"})
+		}
 		for k := 0; k < c.N(5, 14); k++ {
 			jobs = append(jobs, job{[]byte(mutateText(rng, b)), pickFlags(), rng.Intn(2) == 0, rng.Intn(2) == 0, "mutated"})
 		}
